@@ -164,6 +164,99 @@ Theorem C27_qderiv_tendon_damping_write :
 Proof. exact qderiv_tendon_damping_write. Qed.
 Print Assumptions C27_qderiv_tendon_damping_write.
 
+(* derivative._qderiv_box_fluid, task (world, inertia-box fluid body f, element e) with the element in M and
+   dof i an ancestor dof of the body: whenever a medium is present -- density > 0 OR viscosity > 0, i.e.
+   density-only and viscosity-only media included -- the task adds  -h * J_i^T B J_j  with B the translated
+   _deriv_box_fluid and J the translated _get_jac_column_local ... *)
+Theorem C27_qderiv_box_fluid_write :
+  forall (w f e : Z) (opt_timestep : Z -> R) (opt_wind : Z -> list R) (opt_density opt_viscosity : Z -> R)
+         (integ : Z) (body_parentid body_rootid : Z -> Z) (body_mass : Z -> Z -> R) (body_inertia : Z -> Z -> list R)
+         (dof_bodyid body_fluid_box_adr : Z -> Z) (isanc M_elemid : Z -> Z -> Z)
+         (xipos ximat subtree_com cdof cvel : Z -> Z -> list R) (Mi Mj : Z -> Z) (qDeriv_out : Z -> Z -> R)
+         (orc : nat -> Z) (s0 s1 s2 s3 s4 s5 : Z),
+    let body := body_fluid_box_adr f in
+    let i := Mi e in let j := Mj e in let madr := M_elemid i j in
+    let density := opt_density (Z.rem w s1) in let viscosity := opt_viscosity (Z.rem w s2) in
+    let h := opt_timestep (Z.rem w s3) in
+    (0 <= madr)%Z -> dof_bodyid i <> 0%Z -> isanc body i <> 0%Z ->
+    (0 < density \/ 0 < viscosity) ->
+    wadded (box_ws w f e opt_timestep opt_wind opt_density opt_viscosity integ body_parentid body_rootid body_mass
+              body_inertia dof_bodyid body_fluid_box_adr isanc M_elemid xipos ximat subtree_com cdof cvel Mi Mj qDeriv_out
+              orc s0 s1 s2 s3 s4 s5) "qDeriv_out" [w; madr]
+    = - (vdot (box_J w f body_parentid body_rootid dof_bodyid body_fluid_box_adr xipos ximat subtree_com cdof i)
+           (mat_vec 6 6 (box_B w f opt_wind opt_density opt_viscosity integ body_rootid body_mass body_inertia
+                           body_fluid_box_adr xipos ximat subtree_com cvel s0 s1 s2 s4 s5)
+              (box_J w f body_parentid body_rootid dof_bodyid body_fluid_box_adr xipos ximat subtree_com cdof j)) * h).
+Proof. exact qderiv_box_fluid_write. Qed.
+Print Assumptions C27_qderiv_box_fluid_write.
+
+(* ... and with no medium (density <= 0 and viscosity <= 0) it writes nothing *)
+Theorem C27_qderiv_box_fluid_nomedium :
+  forall (w f e : Z) (opt_timestep : Z -> R) (opt_wind : Z -> list R) (opt_density opt_viscosity : Z -> R)
+         (integ : Z) (body_parentid body_rootid : Z -> Z) (body_mass : Z -> Z -> R) (body_inertia : Z -> Z -> list R)
+         (dof_bodyid body_fluid_box_adr : Z -> Z) (isanc M_elemid : Z -> Z -> Z)
+         (xipos ximat subtree_com cdof cvel : Z -> Z -> list R) (Mi Mj : Z -> Z) (qDeriv_out : Z -> Z -> R)
+         (orc : nat -> Z) (s0 s1 s2 s3 s4 s5 : Z),
+    (0 <= M_elemid (Mi e) (Mj e))%Z -> dof_bodyid (Mi e) <> 0%Z -> isanc (body_fluid_box_adr f) (Mi e) <> 0%Z ->
+    opt_density (Z.rem w s1) <= 0 -> opt_viscosity (Z.rem w s2) <= 0 ->
+    box_ws w f e opt_timestep opt_wind opt_density opt_viscosity integ body_parentid body_rootid body_mass
+      body_inertia dof_bodyid body_fluid_box_adr isanc M_elemid xipos ximat subtree_com cdof cvel Mi Mj qDeriv_out
+      orc s0 s1 s2 s3 s4 s5 = [].
+Proof. exact qderiv_box_fluid_nomedium. Qed.
+Print Assumptions C27_qderiv_box_fluid_nomedium.
+
+(* B = _deriv_box_fluid vs the local inertia-box force of passive._fluid_force (hand model box_fluid_local,
+   compared with the real kernel on every run).  Diagonal: closed form Bdiag with the source's binary64
+   constants; the derivative of force component c in its own velocity component is Bdiag with the exact
+   1/3 and 3*PI.  _partial: see Proof/Deriv.v. *)
+Theorem C27_box_fluid_deriv_partial :
+  forall integ (bm : Z -> Z -> R) (bi : Z -> Z -> list R) w bd a0 a1 a2 a3 a4 a5 rho nu sh0 sh1,
+    let mass := bm (Z.rem w sh0) bd in
+    let inertia := bi (Z.rem w sh1) bd in
+    let bx := box_dims mass inertia in
+    let B := TD._deriv_box_fluid integ bm bi w bd [a0; a1; a2; a3; a4; a5] rho nu sh0 sh1 in
+    let F := fun l => box_fluid_local mass inertia (firstn 3 l) (skipn 3 l) rho nu in
+    0 < mass ->
+    (mget 6 B 0 0 = Bdiag third_lit (- lit3pi) (vget bx 0) (vget bx 1) (vget bx 2) a0 rho nu 0 /\
+     is_derive (fun x => nth 0 (F [x; a1; a2; a3; a4; a5]) 0) a0 (Bdiag (1/3) (3*PI) (vget bx 0) (vget bx 1) (vget bx 2) a0 rho nu 0)) /\
+    (mget 6 B 1 1 = Bdiag third_lit (- lit3pi) (vget bx 0) (vget bx 1) (vget bx 2) a1 rho nu 1 /\
+     is_derive (fun x => nth 1 (F [a0; x; a2; a3; a4; a5]) 0) a1 (Bdiag (1/3) (3*PI) (vget bx 0) (vget bx 1) (vget bx 2) a1 rho nu 1)) /\
+    (mget 6 B 2 2 = Bdiag third_lit (- lit3pi) (vget bx 0) (vget bx 1) (vget bx 2) a2 rho nu 2 /\
+     is_derive (fun x => nth 2 (F [a0; a1; x; a3; a4; a5]) 0) a2 (Bdiag (1/3) (3*PI) (vget bx 0) (vget bx 1) (vget bx 2) a2 rho nu 2)) /\
+    (mget 6 B 3 3 = Bdiag third_lit (- lit3pi) (vget bx 0) (vget bx 1) (vget bx 2) a3 rho nu 3 /\
+     is_derive (fun x => nth 3 (F [a0; a1; a2; x; a4; a5]) 0) a3 (Bdiag (1/3) (3*PI) (vget bx 0) (vget bx 1) (vget bx 2) a3 rho nu 3)) /\
+    (mget 6 B 4 4 = Bdiag third_lit (- lit3pi) (vget bx 0) (vget bx 1) (vget bx 2) a4 rho nu 4 /\
+     is_derive (fun x => nth 4 (F [a0; a1; a2; a3; x; a5]) 0) a4 (Bdiag (1/3) (3*PI) (vget bx 0) (vget bx 1) (vget bx 2) a4 rho nu 4)) /\
+    (mget 6 B 5 5 = Bdiag third_lit (- lit3pi) (vget bx 0) (vget bx 1) (vget bx 2) a5 rho nu 5 /\
+     is_derive (fun x => nth 5 (F [a0; a1; a2; a3; a4; x]) 0) a5 (Bdiag (1/3) (3*PI) (vget bx 0) (vget bx 1) (vget bx 2) a5 rho nu 5)).
+Proof. exact box_fluid_deriv_partial. Qed.
+Print Assumptions C27_box_fluid_deriv_partial.
+
+(* density-only (or no) medium: the diagonal of B is EXACTLY d(local box force)/d(local velocity) *)
+Theorem C27_box_fluid_deriv_density_exact :
+  forall integ (bm : Z -> Z -> R) (bi : Z -> Z -> list R) w bd a0 a1 a2 a3 a4 a5 rho nu sh0 sh1,
+    let mass := bm (Z.rem w sh0) bd in
+    let inertia := bi (Z.rem w sh1) bd in
+    let B := TD._deriv_box_fluid integ bm bi w bd [a0; a1; a2; a3; a4; a5] rho nu sh0 sh1 in
+    let F := fun l => box_fluid_local mass inertia (firstn 3 l) (skipn 3 l) rho nu in
+    0 < mass -> nu <= 0 ->
+    is_derive (fun x => nth 0 (F [x; a1; a2; a3; a4; a5]) 0) a0 (mget 6 B 0 0) /\
+    is_derive (fun x => nth 1 (F [a0; x; a2; a3; a4; a5]) 0) a1 (mget 6 B 1 1) /\
+    is_derive (fun x => nth 2 (F [a0; a1; x; a3; a4; a5]) 0) a2 (mget 6 B 2 2) /\
+    is_derive (fun x => nth 3 (F [a0; a1; a2; x; a4; a5]) 0) a3 (mget 6 B 3 3) /\
+    is_derive (fun x => nth 4 (F [a0; a1; a2; a3; x; a5]) 0) a4 (mget 6 B 4 4) /\
+    is_derive (fun x => nth 5 (F [a0; a1; a2; a3; a4; x]) 0) a5 (mget 6 B 5 5).
+Proof. exact box_fluid_deriv_density_exact. Qed.
+Print Assumptions C27_box_fluid_deriv_density_exact.
+
+(* B is diagonal for every medium and both implicit integrators *)
+Theorem C27_box_B_offdiag :
+  forall integ (bm : Z -> Z -> R) (bi : Z -> Z -> list R) w bd a0 a1 a2 a3 a4 a5 rho nu sh0 sh1 (r c : Z),
+    (0 <= r < 6)%Z -> (0 <= c < 6)%Z -> r <> c ->
+    mget 6 (TD._deriv_box_fluid integ bm bi w bd [a0; a1; a2; a3; a4; a5] rho nu sh0 sh1) r c = 0.
+Proof. exact box_B_offdiag. Qed.
+Print Assumptions C27_box_B_offdiag.
+
 (* muscle gain: muscle_gain_vel is d muscle_gain / d velocity away from the three breakpoints
    V = -1, 0, fvmax - 1 of the force-velocity curve (V = vel / max(MINVAL, L0*vmax)).
    _partial: the curve is C1 at the breakpoints only when fvmax - 1 >= MINVAL; not proved there. *)
